@@ -17,9 +17,17 @@ def materialise(case):
     """Build the bs4 object(s) a case describes.  Returns the top object."""
     if 'markup' in case:
         soup = bs4.BeautifulSoup(case['markup'], case['parser'])
+        apply_edits(soup, case.get('edits') or [])
         return soup
     top = _untuple(case['tree'])
     return gen.build_doc(case['kind'], top, detached=case.get('detached', False))
+
+
+def apply_edits(soup, edits):
+    """Edits of a parsed tree through the bs4 API: [path of an element, attribute name, value] -> tag[name] = value.
+    The paths are those of the tree as parsed (setting an attribute moves nothing)."""
+    for p, k, v in edits:
+        enc.node_at(soup, p)[k] = v
 
 
 def _untuple(t):
